@@ -152,18 +152,39 @@ def _work_batch(args):
                 if z3.is_true(g):
                     status, backend, model = "unsat", "simplify", None
                 else:
-                    s = z3.Solver()
-                    s.set("timeout", timeout_ms)
-                    for a in ob.assumptions:
-                        s.add(a)
-                    s.add(z3.Not(ob.goal))
-                    r = s.check()
+                    def attempt(seed):
+                        s = z3.Solver()
+                        s.set("timeout", timeout_ms)
+                        if seed:
+                            s.set("random_seed", seed)
+                        for a in ob.assumptions:
+                            s.add(a)
+                        s.add(z3.Not(ob.goal))
+                        r = s.check()
+                        if r == z3.sat:
+                            # z3's sequence solver can answer `sat` with a model that does not satisfy the
+                            # query (seen: same formula sat in one call, unsat in the next): a sat answer only
+                            # counts when its model validates
+                            try:
+                                m = s.model()
+                                ok = all(z3.is_true(m.eval(a, model_completion=True)) for a in ob.assumptions) \
+                                    and z3.is_true(m.eval(z3.Not(ob.goal), model_completion=True))
+                            except Exception:
+                                ok = False
+                            if not ok:
+                                return z3.unknown, None
+                            return r, m
+                        return r, None
+                    r, m = attempt(0)
+                    tries = 0
+                    while r == z3.unknown and tries < 4:
+                        tries += 1
+                        r, m = attempt(tries * 17)
                     status = str(r)
-                    backend = "z3-5.1"
+                    backend = "z3-5.1" + (f"[retry {tries}]" if tries else "")
                     model = None
                     if r == z3.sat:
                         try:
-                            m = s.model()
                             model = {d.name(): str(m[d])[:80] for d in m.decls() if d.arity() == 0}
                             model = dict(list(model.items())[:25])
                         except Exception:
